@@ -296,6 +296,36 @@ Definition g_interf : graph :=
     (* 33 *) mkG GPlain [31; 25] (MAlias 1) []            (* ds2.amplitudes: the source's Visibilities object, hence its cached array *)
   ].
 
+(* Imaging -> inversion, w-tilde formalism, one regularized mapper (inversion/inversion/imaging/w_tilde.py).  The factory reads
+   `dataset.w_tilde` when it builds the inversion: for the reads that follow it is an input *)
+Definition g_wtilde : graph :=
+  [ (* 0 *) inp;                                          (* dataset.data *)
+    (* 1 *) inp;                                          (* dataset.noise_map *)
+    (* 2 *) inp;                                          (* dataset.psf *)
+    (* 3 *) inp;                                          (* the mapper's grids and mesh *)
+    (* 4 *) cached [0; 2];                                (* dataset.convolver *)
+    (* 5 *) inp;                                          (* dataset.w_tilde (computed when the inversion was built) *)
+    (* 6 *) cached [3];                                   (* mapper.pix_sub_weights *)
+    (* 7 *) cached [6];                                   (* mapper.unique_mappings *)
+    (* 8 *) cached [6];                                   (* mapper.mapping_matrix *)
+    (* 9 *) cached [0; 1; 4];                             (* inversion.w_tilde_data *)
+    (* 10 *) cached [9; 7];                               (* data_vector *)
+    (* 11 *) cached [5; 7];                               (* curvature_matrix *)
+    (* 12 *) cached [3];                                  (* regularization_matrix *)
+    (* 13 *) mkG GCached [12] (MAlias 0) [];              (* regularization_matrix_reduced *)
+    (* 14 *) mkG GCached [11; 12] MFresh [11];            (* curvature_reg_matrix *)
+    (* 15 *) mkG GCached [14] (MAlias 0) [];              (* curvature_reg_matrix_reduced *)
+    (* 16 *) cached [10; 14];                             (* reconstruction *)
+    (* 17 *) mkG GCached [16] (MAlias 0) [];              (* reconstruction_reduced *)
+    (* 18 *) plain [16; 7; 4];                            (* mapped_reconstructed_data_dict *)
+    (* 19 *) cached [18];                                 (* mapped_reconstructed_data *)
+    (* 20 *) cached [8];                                  (* inversion.mapping_matrix *)
+    (* 21 *) cached [4; 8];                               (* inversion.operated_mapping_matrix *)
+    (* 22 *) cached [17; 13];                             (* regularization_term *)
+    (* 23 *) cached [15];                                 (* log_det_curvature_reg_matrix_term *)
+    (* 24 *) cached [13]                                  (* log_det_regularization_matrix_term *)
+  ].
+
 Definition ginstance (k : nat) : graph :=
   match k with
   | 0 => g_mesh false false
@@ -303,5 +333,6 @@ Definition ginstance (k : nat) : graph :=
   | 2 => g_fit
   | 3 => g_chain false
   | 4 => g_interf
+  | 5 => g_wtilde
   | _ => []
   end%nat.
